@@ -86,6 +86,35 @@ def main(seed):
                 continue                # completion is C01/C02/C05/C06's business
             if where:
                 fails.append({"api": spec["api"], "pattern": spec["pattern"], "dtype": np.dtype(dt).name, "where": where})
+    # constructors: every parameter / buffer of a freshly built (and of a re-initialised) layer is fully written, for ordinary and for degenerate sizes
+    # (zero input features, zero channels), with and without bias
+    import itertools
+    grid = []
+    for i, o, bias in itertools.product((0, 1, 3), (0, 1, 2), (True, False)):
+        grid.append(("nn.Linear(%d, %d, bias=%s)" % (i, o, bias), lambda i=i, o=o, bias=bias: nn.Linear(i, o, bias=bias)))
+    for i in (0, 1, 4):
+        grid.append(("nn.Neuron(%d)" % i, lambda i=i: nn.Neuron(i)))
+    for ci, co, k, bias in itertools.product((0, 2), (0, 3), (1, 2), (True, False)):
+        grid.append(("nn.Conv1d(%d, %d, %d, bias=%s)" % (ci, co, k, bias), lambda ci=ci, co=co, k=k, bias=bias: nn.Conv1d(ci, co, k, bias=bias)))
+        grid.append(("nn.Conv2d(%d, %d, %d, bias=%s)" % (ci, co, k, bias), lambda ci=ci, co=co, k=k, bias=bias: nn.Conv2d(ci, co, k, bias=bias)))
+    for c, aff, tr in itertools.product((0, 3), (True, False), (True, False)):
+        grid.append(("nn.BatchNorm1d(%d, affine=%s, track_running_stats=%s)" % (c, aff, tr), lambda c=c, aff=aff, tr=tr: nn.BatchNorm1d(c, affine=aff, track_running_stats=tr)))
+        grid.append(("nn.BatchNorm2d(%d, affine=%s, track_running_stats=%s)" % (c, aff, tr), lambda c=c, aff=aff, tr=tr: nn.BatchNorm2d(c, affine=aff, track_running_stats=tr)))
+    for label, mk in grid:
+        n += 1
+        try:
+            with np.errstate(all="ignore"):
+                L = mk()
+                tensors = [("parameter %d" % k, p) for k, p in enumerate(L.parameters())]
+                tensors += [(nm, getattr(L, nm)) for nm in ("running_mean", "running_var") if getattr(L, nm, None) is not None]
+                hit = [nm for nm, t in tensors if bad(t.data)]
+                if not hit and hasattr(L, "reset_parameters"):
+                    L.reset_parameters()
+                    hit = [nm + " after reset_parameters()" for nm, t in tensors if bad(t.data)]
+        except Exception:
+            continue                    # refusing a degenerate size is fine
+        if hit:
+            fails.append({"api": label, "pattern": "constructor", "dtype": "default", "where": "freshly constructed " + hit[0]})
     print("RESULT " + json.dumps({"evaluations": n, "failures": fails[:40], "n_failures": len(fails)}))
 
 
